@@ -317,6 +317,15 @@ func c07IfElse(c *Ctx, es *ssa.Function) {
 		return
 	}
 	cond := "isTruthy(&(*lang.Evaluator).evalExpr(e, stmt.(*lang.StatementIf)#0.Expr)#0.Value)"
+	// one test decides both branches: the truthiness of the condition is taken exactly once (a second
+	// reading after the then-branch sees what that branch assigned)
+	nTests := 0
+	for _, call := range callsIn(es) {
+		if cv, ok := call.(*ssa.Call); ok && staticCalleeIs(cv, "(*lang.Value).isTruthy") && strings.TrimPrefix(p.Render(cv), "(*lang.Value).") == cond {
+			nTests++
+		}
+	}
+	c.check(nTests == 1, "R3", "if-condition-tested-once", p.InstrPos(b[0]), "one truthiness test per execution of the if", fmt.Sprintf("the condition's truthiness is taken %d times in the if arm: when the condition is a variable that the then-branch assigns, the second reading runs the else-branch as well", nTests))
 	k1, v1 := factTruthOf(p, F.At(b[0].Block()), cond)
 	k2, v2 := factTruthOf(p, F.At(e[0].Block()), cond)
 	c.check(k1 && v1, "R3", "then-gate", p.InstrPos(b[0]), "then-branch under a truthy condition", "the then-branch is not gated by isTruthy(condition) == true")
